@@ -292,11 +292,17 @@ def go_convert(ty, v):
     return ("f", ty, bits)
 
 
+# diagnosis only: evaluate a file as if every dot-less numeric token were of floating-point kind (what it would be with
+# the `.0` suffix), to tell whether the KIND of a token is what makes Go's result differ from the source meaning
+_READ_INT_TOKENS_AS_FLOAT = [False]
+
+
 def go_eval_expr(e, env, fns):
     k = e[0]
     if k == "num":
         c = go_read_number(e[1])
         if c is None: raise GoCompileError("bad-literal")
+        if c[0] == "i" and _READ_INT_TOKENS_AS_FLOAT[0]: c = ("q", Fraction(c[1]))
         return ("c", c)
     if k == "var":
         if e[1] in ("true", "false"): return ("b", e[1] == "true")
@@ -802,8 +808,17 @@ def run(ctx):
                         kinds = [(go_read_number(t_) or ("?",))[0] for t_ in texts]
                         cls = max([text_class(t_, ty) for t_, k_ in zip(texts, kinds) if k_ == "q"] or ["exact"], key=order.index)
                         if "i" in kinds:
-                            # a float operand printed without `.`/exponent is an INTEGER constant: `7 / 2` is integer division
-                            cls = "integer-kind"
+                            # a float operand printed without `.`/exponent is an INTEGER constant: `7 / 2` is integer division.
+                            # Named as the cause only when reading those tokens as floating-point changes Go's result.
+                            _READ_INT_TOKENS_AS_FLOAT[0] = True
+                            try:
+                                got_fk = go_file_eval(gofile, ty)[0]
+                            except Exception:
+                                got_fk = None
+                            finally:
+                                _READ_INT_TOKENS_AS_FLOAT[0] = False
+                            if got_fk != got:
+                                cls = "integer-kind"
                         sig = {"oracle": "float-constant", "kind": "go-constant-expression-differs-from-source", "type": ty, "operand_text": cls}
                     ctx.report(sig,
                                f"`{stmt}` at {ty} means {want_s} (each literal rounded to {ty}, IEEE operation) but the printed Go evaluates the "
@@ -950,10 +965,16 @@ def run(ctx):
                               "literal pairs), bool and float operators; each integer OP case is evaluated on all 256×256 operand pairs (8-bit) or "
                               "boundary+random pairs against the source meaning; FC: float operators whose operands are literals (lit op lit grid over one-decimal and dyadic values + seeded random "
                               "decimals, exact ties, literal comparisons, three literals in both associations, mixed with variables, unary minus, nested, call "
-                              "arguments, conditions, constant zero divisor / overflow / negative zero; float32 and float64): source meaning from exact "
-                              "Fractions vs Sem on the real Core vs Go's constant rules on the real printed text; FLT: decimals, f32 rounding midpoints ± 10^-k, range ends, subnormals",
+                              "arguments, conditions, constant zero divisor / overflow / negative zero; the KIND of the printed constant: whole-number operands "
+                              "(whole op whole grid over every operator + seeded random 1..7-digit pairs + magnitudes around 2^24 / 2^32 / 2^53 / 2^64, negated, beside a "
+                              "non-whole literal, beside a variable, nested, call argument, comparison, condition); float32 and float64): source meaning from exact "
+                              "Fractions vs Sem on the real Core vs Go's constant rules on the real printed text; FLT: decimals, f32 rounding midpoints ± 10^-k, range ends, subnormals; "
+                              "GOLIT (model validation): the reading of one numeric token of Go text — every decimal form of Go's floating-point literal grammar (either side of "
+                              "the `.` empty, exponent with/without sign, e/E), malformed tokens, and `{}` / `{:?}` / `{:e}` / `{:E}` of seeded random finite f64 / f32 values — by "
+                              "Model/GoConst.litValL + roundQ, by python and by Rust's str::parse::<f32/f64> (three-way)",
     }
     ctx.assumptions += [
+        "Go numeric tokens: a decimal token with a `.` or an exponent is a floating-point constant, digits alone an integer constant (octal after a leading 0), and an operator on two integer constants is integer arithmetic (`7 / 2` is 3) — Go specification, Integer literals / Floating-point literals / Constant expressions; Model/GoConst.litValL and go_read_number in c10.py; hexadecimal forms and `_` separators are not read",
         "Go constant expressions: numeric literals are untyped arbitrary-precision constants, evaluated exactly, converted once at the typed use; a constant zero divisor and a constant that overflows the type are compile errors; there is no negative-zero constant (Go specification, Constants / Constant expressions) — Model/GoConst.lean and go_file_eval in c10.py",
         "IEEE-754 + - * / on float32/float64 are the exact result correctly rounded (ieeeBin / ieee); signed-zero results and NaN are not modelled",
         "Go's semantics of + - * / < <= > >= == != - ! on sized integers is what the Go specification says (goBinInt in Lean, go_bin in the oracle); no Go toolchain exists to observe it",
